@@ -73,13 +73,13 @@ CLAIMED.update({
          "Router configurations are restricted to those CommitLog::new accepts (operator input). Debug assertions off, overflow checks on.", "§5 C03"),
  "C14": (E4, MB + "; witness pair asserted, adversaries followed)",
          "A witness publisher/subscriber pair shares topics with 1-3 adversaries that draw from the C03 alphabet: the C01/C06/C09 clauses hold exactly for the witnesses at every drain and idle point and their connections stay registered after every router turn; adversaries' valid publishes are part of the model. Exploration only.",
-         T4 + " Known finding R5 (recycled connection ids) kept out of the main campaign by construction and probed.", "§5 C14"),
+         T4 + " R5 (recycled connection ids) was repaired in /repo (registration serial in the connection token); the former probe is a focused campaign.", "§5 C14"),
 })
 
 CLAIMED.update({
  "C19": (E4, MB + "; admission model and live-connection invariants after every turn)",
          "Router-level part of the property: connect / disconnect / link-failure / takeover histories by 2-6 clients (some with ids containing + $ # /) against max_connections 1..4: after every router turn live client ids are pairwise distinct, live connections <= max_connections, a connection attempt is registered iff its id is valid and a slot is free after a takeover removed the older connection, session_present follows the session rule. CONNECT validation / authentication (first sentence) is covered by the E5 engine, being merged.",
-         T4 + " Known finding R5 kept out by construction.", "§5 C19"),
+         T4 + " R5 (recycled connection ids) was repaired in /repo.", "§5 C19"),
  "C20": (E4, MB + "; every drained notification encoded with the subscriber's protocol and decoded with rumqttc)",
          "Router-level part: mixed v4/v5 clients, v5 publishes with every subset of the publish properties, subscription ids, broker topic aliases, all ack kinds and Disconnect notifications: every notification must be written by V4/V5 without error or panic and decode in rumqttc of that version to the same topic/payload, publisher properties preserved towards v5; the C01 delivery oracle applies. The end-to-end variant through two per-connection tasks is covered by the E5 engine, being merged.",
          T4, "§5 C20"),
@@ -150,7 +150,7 @@ def main():
             "guard": "cargo feature verif-hooks (rumqttc and rumqttd); enabled only by /verif/harness/Cargo.toml",
             "enable": "path dependencies in /verif/harness/Cargo.toml: rumqttc/rumqttd with default-features = false, features = [\"verif-hooks\"]; harness rustflags --cfg tokio_unstable (affects tokio only)",
             "baseline_off_cmd": BASELINE_OFF,
-            "source_commits": ["e2a3e4c", "70230a5", "615882b"],
+            "source_commits": ["e2a3e4c", "70230a5", "615882b", "06d6992"],
             "add_only": True,
         },
         "engines": [
